@@ -309,3 +309,5 @@ PROP = Prop(
     assumptions=["alpha >= 0.01 with <= 30 replicates keeps BCa away from its pole (C13 carve-out)",
                  "the number of extra support points is not asserted (not stated by the property)"],
 )
+
+RULE_EXTRA = ('alpha up to 0.99; enumeration of every class size 1..400 (quick) / 1..3000 (thorough) plus 1e5..1e12; curves with 700-4200 support points.')
